@@ -152,6 +152,17 @@ func (e *Env) Step(s State, o Op, r Res) (bool, State) {
 			n.Cached = true
 			return r.Err == "" && r.Sig == e.GroupSig, n
 		}
+		// An invalid share was retained through TrustedAdd: the documentation promises an error
+		// INSTEAD OF AN INVALID SIGNATURE. It does not promise an error in every case: shares
+		// that are invalid for their signer can still interpolate to the group signature (e.g.
+		// with n=4,t=3 the Lagrange coefficients of signers 0 and 2 are equal, so swapping
+		// their shares changes nothing). The result is then the valid, unique group signature,
+		// which the property allows; it is cached like any other success.
+		if r.Err == "" && r.Sig == e.GroupSig {
+			n := s.Clone()
+			n.Cached = true
+			return true, n
+		}
 		return (r.Err == "invalidsig" || r.Err == "input") && r.Sig == "", s
 	}
 	return false, s
